@@ -392,6 +392,15 @@ enum:
 		h.Col.Exhaustive("server level: patterns up to length 3 over {a,é,*,?} x a store holding all 20 keys up to length 2 over the same alphabet", complete)
 	}
 
+	// patterns that spell the option names of SCAN
+	if h.Shard == 0 {
+		for _, pat := range []string{"match", "MATCH", "count", "COUNT", "Match", "coun?", "type", "0", "100"} {
+			c := c17Server{Pattern: pat, Keys: []string{"match", "MATCH", "count", "COUNT", "100", "0", "other"}}
+			h.Col.Case(true, []byte("optname "+pat), "server-option-name-pattern")
+			h.Report("c17.server", c, evalC17Server(c))
+		}
+	}
+
 	// very long patterns: KEYS and SCAN MATCH still agree
 	if h.Shard == 0 {
 		for _, n := range []int{65536, 65537, 70000, 200000} {
